@@ -15,6 +15,8 @@ CONSTANTS
   RrefFlags <- FL_All
   Options <- O_Default
   MaxEvals = 1
+  TraceSpecies <- T_None
+  TraceExp <- T_Exp
 INVARIANT TypeOK
 INVARIANT BackwardConstructionIsEquilibrium
 INVARIANT PerturbationBreaksOneClause
